@@ -140,12 +140,29 @@ func reifyRoundCase(r *Rng, t *tyNode) (Case, bool) {
 	src.Elem().Set(v)
 	cfg := ucfg.New()
 	var merr error
-	if p, _ := guard(func() { merr = cfg.Merge(src.Interface(), ucfg.PathSep(".")) }); p || merr != nil {
-		return Case{}, false
+	// (into an empty config every merge policy gives the same result)
+	mopts := []ucfg.Option{ucfg.PathSep(".")}
+	if p := policyOpts[r.Intn(len(policyOpts))]; p.opt != nil && r.Bool() {
+		mopts = append(mopts, p.opt)
+	}
+	uopts := []ucfg.Option{ucfg.PathSep(".")}
+	if t.usesAltCTag() {
+		mopts = append(mopts, ucfg.StructTag("alt"))
+		uopts = append(uopts, ucfg.StructTag("alt"))
+	}
+	if p, pm := guard(func() { merr = cfg.Merge(src.Interface(), mopts...) }); p || merr != nil {
+		if e, ok := merr.(ucfg.Error); ok && !p && e.Reason() == ucfg.ErrDuplicateKey {
+			return Case{}, false // field names that overlap: no type the property speaks about
+		}
+		// a value of a supported type that can not even be merged does not round-trip
+		obs, d := uobs(t, v, merr, p, pm)
+		coq := fmt.Sprintf("CRound %s %s %s None %s", coqRopts(0, nil, nil), t.coq(), coqGV(t, v), obs)
+		return Case{Coq: coq, Desc: map[string]interface{}{"kind": "round", "type": t.desc(), "value": descGV(v), "config": "Merge failed", "observed": d},
+			Tags: []string{"round", "merge-failed"}, Nontrivial: true}, true
 	}
 	target := reflect.New(t.goType())
 	var uerr error
-	panicked, pmsg := guard(func() { uerr = cfg.Unpack(target.Interface(), ucfg.PathSep(".")) })
+	panicked, pmsg := guard(func() { uerr = cfg.Unpack(target.Interface(), uopts...) })
 	obs, d := uobs(t, target.Elem(), uerr, panicked, pmsg)
 	var durs []string
 	collectVParams(t, &durs)
@@ -717,8 +734,30 @@ func genReify(g *Gen, mode string) {
 				g.Add(c)
 			}
 		case "C06":
+			if r.P(1, 8) && !isList {
+				// settings that live in the root list: tags that are list positions
+				for k := range t.Fields {
+					if k < 3 && !strings.Contains(t.Fields[k].CTag, "inline") {
+						t.Fields[k].CTag = fmt.Sprint(k)
+					}
+				}
+				t.rt = nil
+			}
+			dualC := r.P(1, 6)
+			if dualC {
+				dualizeC(t)
+				if r.Bool() {
+					t = swapCTags(t)
+				}
+			}
 			if c, ok := reifyRoundCase(r, t); ok {
 				g.Add(c)
+			}
+			if dualC {
+				if c, ok := reifyRoundCase(r, swapCTags(t)); ok {
+					c.Tags = append(c.Tags, "dual-ctag:second")
+					g.Add(c)
+				}
 			}
 		default:
 			pbad := 1
@@ -749,6 +788,8 @@ func genReify(g *Gen, mode string) {
 				t, cfgData, fix = ptrInvalid(r)
 			} else if tcfg.Handling && r.P(1, 10) {
 				t, cfgData, fix = emptiedLists(r)
+			} else if mode == "C04" && r.P(1, 12) {
+				t, cfgData, fix = bigBounds(r)
 			}
 			dual := mode == "C04" && fix == nil && r.P(1, 5)
 			dualC := mode == "C13" && fix == nil && r.P(1, 5)
@@ -907,6 +948,34 @@ func emptiedLists(r *Rng) (*tyNode, map[string]interface{}, func(reflect.Value))
 		v.Field(2).Set(im)
 	}
 	return t, cfg, fix
+}
+
+// bigBounds: min/max bounds at and above 2^53 with settings right next to them: integers are
+// compared as integers (two neighbours round to one float64 there)
+func bigBounds(r *Rng) (*tyNode, map[string]interface{}, func(reflect.Value)) {
+	i64 := &tyNode{Kind: "prim", Prim: primKinds[4]}
+	u64 := &tyNode{Kind: "prim", Prim: primKinds[7]}
+	t := &tyNode{Kind: "struct", Fields: []tyField{
+		{GoName: "A", CTag: "a", VTag: "max=9007199254740992", T: i64},
+		{GoName: "B", CTag: "b", VTag: "min=18446744073709551615", T: u64},
+		{GoName: "C", CTag: "c", VTag: "min=-9007199254740993", T: i64},
+		{GoName: "D", CTag: "d", VTag: "min=9223372036854775806, max=9223372036854775806", T: i64}}}
+	cfg := map[string]interface{}{}
+	cfg["a"] = []interface{}{int64(9007199254740993), int64(9007199254740992), int64(9007199254740991), uint64(9007199254740994)}[r.Intn(4)]
+	cfg["b"] = []interface{}{uint64(18446744073709551614), uint64(18446744073709551615), uint64(18446744073709551613)}[r.Intn(3)]
+	cfg["c"] = []interface{}{int64(-9007199254740994), int64(-9007199254740993), int64(-9007199254740992)}[r.Intn(3)]
+	cfg["d"] = []interface{}{int64(9223372036854775807), int64(9223372036854775806), int64(9223372036854775805)}[r.Intn(3)]
+	for _, k := range []string{"a", "b", "c", "d"} {
+		if r.P(1, 4) {
+			delete(cfg, k)
+		}
+	}
+	return t, cfg, func(v reflect.Value) {
+		v.Field(0).SetInt(1)
+		v.Field(1).SetUint(18446744073709551615)
+		v.Field(2).SetInt(0)
+		v.Field(3).SetInt(9223372036854775806)
+	}
 }
 
 // ptrInvalid: a pre-filled pointer field under a validator about the value it points to; the
